@@ -69,7 +69,10 @@ def c09 (kind : String) (inp impl : Json) : Verdict :=
           let bad := ["model", "result", "param", "insparam"].filter (fun k => jstr impl k != w)
           let wnn : String := (if eng == "postgresql" then (pgCanonByName (jstr inp "canon")).map (fun c => Spec.docGoType c.go true arr)
                                else (myCanonByName (jstr inp "canon")).map (fun c => Spec.docGoType c.go true arr)).getD w
+          -- a placeholder under a cast is typed by the cast (NOT NULL), whatever it is compared with or inserted into
+          let badCast := ["castparam", "castins", "castset"].filter (fun k => jhas impl k && jstr impl k != wnn)
           if !bad.isEmpty then s!"fail:documented {w}; positions that differ: {bad} = {bad.map (jstr impl)}"
+          else if !badCast.isEmpty then s!"fail:documented {wnn} for a placeholder cast to this type; positions that differ: {badCast} = {badCast.map (jstr impl)}"
           else if jhas impl "coalesced" && jstr impl "coalesced" != wnn then
             s!"fail:documented {wnn} for the NOT NULL result coalesce(c, c) AS c; {jstr impl "coalescedStruct"}.C is {jstr impl "coalesced"}"
           else "ok"
